@@ -33,3 +33,4 @@ Qed.
 
 (* the non-vacuity matrix of C01/C02: zero leading entry, two row exchanges *)
 Definition M3 : matrix AQ := @mkM AQ [q 0 1; q 2 1; q 1 1;  q 1 1; q 1 1; q 0 1;  q 2 1; q 0 1; q 3 1] 3 3.
+Definition b3 : list AQ := [q 1 1; q 2 1; q 3 1].
